@@ -49,6 +49,17 @@ var fixedPlans = map[string]plan{
 		{Method: "SETUP", PathSym: "live", Track: "audio", Trans: "mcast"},
 		{Method: "PLAY", PathSym: "live"},
 	}},
+	// D16 (a corrected false alarm of the channel oracle, found at VERIF_SEED=11): every SETUP here is
+	// ACCEPTED; the video track is then played on the channel of its earlier accepted tcp SETUP
+	"accepted-resetup-tcp-udp-then-tcp-session": {Transport: "tcp", End: "close", CheckFrames: true, Steps: []step{
+		{Method: "DESCRIBE", PathSym: "live"},
+		{Method: "SETUP", PathSym: "live", Track: "video", Trans: "tcp"},
+		{Method: "SETUP", PathSym: "live", Track: "video", Trans: "udp"},
+		{Method: "SETUP", PathSym: "live", Track: "audio", Trans: "tcp"},
+		{Method: "PLAY", PathSym: "live"},
+		{Method: "OPTIONS", PathSym: "live"},
+		{Method: "OPTIONS", PathSym: "live"},
+	}},
 	"refused-record-setup-keeps-transport-type": {Transport: "tcp", End: "close", Steps: []step{
 		{Method: "ANNOUNCE", PathSym: "pub", SDP: "valid"},
 		{Method: "SETUP", PathSym: "pub", Track: "video", Trans: "tcp", Mode: "record", ModeText: "mode=record"},
